@@ -1,16 +1,9 @@
-(* C19 -- bounded binary64 statement, part 3 of 4 (computed): for the intervals
-   [0.0,10.0], [0.001,1000.0], [100.0,100.1], [-3.7,12.9] (nearest doubles) and every n = 1..2000 the break points of the repaired
-   make_knots pass NpF.bp_ok. *)
-From Coq Require Import PrimFloat List Arith Bool.
+(* C19 -- bounded binary64 statement, chunk 3 of 16 (computed): for the intervals
+   FloatGridDefs.chunk 2 and every n = 1..2000 the break points of the repaired make_knots
+   pass NpF.bp_ok. *)
+From Coq Require Import QArith List Arith Bool.
 From Verif.lib Require Import NpCore NpF.
-Import ListNotations.
-Open Scope float_scope.
+From Verif.C19 Require Import FloatGridDefs.
 
-Definition grid3 : list (float * float) :=
-  [(0x0.0p+0, 0x1.4000000000000p+3);
-   (0x1.0624dd2f1a9fcp-10, 0x1.f400000000000p+9);
-   (0x1.9000000000000p+6, 0x1.9066666666666p+6);
-   ((-0x1.d99999999999ap+1), 0x1.9cccccccccccdp+3)].
-
-Lemma grid3_ok : grid_check 2000 grid3 = true.
+Lemma grid3_ok : grid_check 2000 (map f_of_qq (chunk 2)) = true.
 Proof. vm_compute. reflexivity. Qed.
